@@ -14,6 +14,7 @@ CONSTANTS
   RestoreOnReturn = TRUE
   EmbRestoreAll = TRUE
   SuperCheckFirst = TRUE
+  AncestryWalk = TRUE
   GuardCanonical = FALSE
   RegisterAfterCreate = TRUE
   NsCachesInit = TRUE
